@@ -80,14 +80,20 @@ def static? (l : Layout) : Option SLayout := l.ts.mapM fun t => t.mapM staticStr
     `ok none` = "not transformed" (warning), `ok (some d)` = the new flat data, `error` = the exception.
     `is_dense()` is evaluated first and raises `ValueError` on a dynamic layout (the later `is_dynamic()` test is
     dead code); `reshape` raises `ValueError` when the number of elements does not match (splat constants). -/
-def transformConstant (data : List Int) (l : Layout) : Except Err (Option (List Int)) :=
+def transformConstantF (refuseOffset : Bool) (data : List Int) (l : Layout) : Except Err (Option (List Int)) :=
   match l.isDense with
   | .error e => .error e
   | .ok false => .ok none
   | .ok true =>
     match static? l with
     | none => .ok none
-    | some s => if data.length ≠ size s then .error .valueError else .ok (some (relayout data s))
+    | some s =>
+      if refuseOffset && (l.offset != some 0) then .ok none          -- proposed fix FC12d (finding DC12d)
+      else if data.length ≠ size s then .error .valueError else .ok (some (relayout data s))
+
+/-- the code as found: the offset of the target layout is ignored (finding DC12d) -/
+abbrev transformConstant (data : List Int) (l : Layout) : Except Err (Option (List Int)) :=
+  transformConstantF false data l
 
 /-! ## `transpose_tuple` -/
 
@@ -407,5 +413,80 @@ def chk (src alloc : List Nat) (b : Blk) : Bool :=
   match chkFrom src alloc b ⟨true, false⟩ with
   | some q => q.srcOk
   | none => false
+
+/-! ### the syntactic clauses, as a decision procedure -/
+
+/-- split off the longest prefix of items that do not use the cast -/
+def splitPre : Blk → Blk × Blk
+  | .nil => (.nil, .nil)
+  | .cons i r => if i.uses then (.nil, .cons i r) else ((Blk.cons i (splitPre r).1), (splitPre r).2)
+
+/-- split off the longest suffix of items that do not use the cast -/
+def splitPost : Blk → Blk × Blk
+  | .nil => (.nil, .nil)
+  | .cons i r =>
+    if r.uses then (Blk.cons i (splitPost r).1, (splitPost r).2)
+    else if i.uses then (.cons i .nil, r)
+    else (.nil, .cons i r)
+
+/-- the last use of the cast as an output (if any) is an operation of the block itself -/
+def lwtB : Blk → Bool
+  | .nil => true
+  | .cons i r => if r.usesOut then lwtB r else (!i.usesOut || i.leafOut)
+
+/-- The clauses `Clean`, `SourceQuiet`, `LastWriterTop` for the segment between the first and the last item that use
+    the cast. -/
+def synB (src alloc : List Nat) (b : Blk) : Bool :=
+  let pre := (splitPre b).1
+  let mid := (splitPost (splitPre b).2).1
+  let post := (splitPost (splitPre b).2).2
+  pre.okB alloc true true && post.okB alloc true true && mid.okB (alloc ++ src) true true && lwtB mid
+
+/-! ## where `set-memory-space` puts the L1 casts (`InitStreamAndLinalgMemorySpace`) -/
+
+mutual
+/-- the function body as far as the pattern is concerned: accelerator operations with the values (by id, in operand
+    order) that are not in L1 yet, other operations (`op []`), and regions -/
+inductive MItem where
+  | op (needs : List Nat)
+  | loop (body : MBlk)
+inductive MBlk where
+  | nil
+  | cons (i : MItem) (r : MBlk)
+end
+
+/-- Positions are paths of indices (in the original program). A cast inserted in front of the operation at `c` is
+    visible at the operation at `p`: same block, not later - or `p` is nested in such an operation. -/
+def domB : List Nat → List Nat → Bool
+  | [k], k' :: _ => decide (k ≤ k')
+  | a :: c, b :: p => a == b && domB c p
+  | _, _ => false
+
+structure MState where
+  /-- the casts created so far (value, position), newest first = the order of `operand.uses` -/
+  casts : List (Nat × List Nat)
+  /-- (operation, value, position of the cast that feeds it), in walk order -/
+  out : List (List Nat × Nat × List Nat)
+
+/-- `get_cast_op` for every operand of the operation at `p`. `fixed = false`: the code as found re-uses any existing L1
+    cast of the value (finding DC12c); `true`: with the proposed fix FC12c only a cast that is visible at `p`. -/
+def assignOp (fixed : Bool) (p : List Nat) : List Nat → MState → MState
+  | [], st => st
+  | v :: vs, st =>
+    match st.casts.find? fun c => c.1 == v && (!fixed || domB c.2 p) with
+    | some c => assignOp fixed p vs ⟨st.casts, st.out ++ [(p, v, c.2)]⟩
+    | none => assignOp fixed p vs ⟨(v, p) :: st.casts, st.out ++ [(p, v, p)]⟩
+
+mutual
+def MItem.walk (fixed : Bool) (p : List Nat) : MItem → MState → MState
+  | .op needs, st => assignOp fixed p needs st
+  | .loop b, st => b.walk fixed p 0 st
+def MBlk.walk (fixed : Bool) (pre : List Nat) (k : Nat) : MBlk → MState → MState
+  | .nil, st => st
+  | .cons i r, st => r.walk fixed pre (k + 1) (i.walk fixed (pre ++ [k]) st)
+end
+
+/-- for every operand that needs a cast: which cast feeds it -/
+def assignCasts (fixed : Bool) (b : MBlk) : List (List Nat × Nat × List Nat) := (b.walk fixed [] 0 ⟨[], []⟩).out
 
 end SnaxVerif.Casts
